@@ -404,3 +404,215 @@ variant('t-alloc-while-true', ['C13'], 'rsocket/stream_control.py',
 
             if self._current_stream_id != CONNECTION_STREAM_ID and self._current_stream_id not in self._streams:
                 return self._current_stream_id""", kind='twin')
+
+# ----------------------------------------------------------------------------------------------- C14
+B = 'rsocket/rsocket_base.py'
+variant('b-lease-gate-bypassed-for-fnf', ['C14'], B,
+        """        frame = to_fire_and_forget_frame(stream_id, payload, self._fragment_size_bytes)
+        self.send_request(frame)""", """        frame = to_fire_and_forget_frame(stream_id, payload, self._fragment_size_bytes)
+        self.send_frame(frame)""", ('C14.a', 'fire_and_forget'))
+variant('b-lease-gate-inverted', ['C14'], B,
+        "        if self._honor_lease and not self._is_frame_allowed_to_send(frame):",
+        "        if self._honor_lease and self._is_frame_allowed_to_send(frame):", ('C14.a', 'send_request'))
+variant('b-lease-off-by-one', ['C14'], 'rsocket/lease.py',
+        "        if self._request_counter > self.maximum_request_count:",
+        "        if self._request_counter > self.maximum_request_count + 1:", ('C14.b', 'accept iff'))
+variant('b-lease-count-before-expiry', ['C14'], 'rsocket/lease.py',
+        """        if self._lease_created_at + self.maximum_lease_time <= datetime.now():
+            return False
+
+        self._request_counter += 1
+""", """        self._request_counter += 1
+
+        if self._lease_created_at + self.maximum_lease_time <= datetime.now():
+            return False
+""", ('C14.b', 'expiry before count'))
+variant('b-lease-expiry-ignored', ['C14'], 'rsocket/lease.py',
+        "        if self._lease_created_at + self.maximum_lease_time <= datetime.now():\n            return False\n",
+        "        if self._lease_created_at + self.maximum_lease_time <= datetime.now():\n            pass\n",
+        ('C14.b', 'expired lease refuses'))
+variant('b-initial-lease-one', ['C14'], B,
+        "self._requester_lease = DefinedLease(maximum_request_count=0)",
+        "self._requester_lease = DefinedLease(maximum_request_count=1)", ('C14.c', ''))
+variant('b-lease-ttl-seconds', ['C14'], B,
+        "            timedelta(milliseconds=frame.time_to_live)", "            timedelta(seconds=frame.time_to_live)",
+        ('C14.d', 'installs'))
+variant('b-lease-drain-swapped', ['C14'], B,
+        "while not self._request_queue.empty() and self._requester_lease.is_request_allowed():",
+        "while self._requester_lease.is_request_allowed() and not self._request_queue.empty():",
+        ('C14.d', 'emptiness'))
+variant('b-lease-drain-double-send', ['C14'], B,
+        """            self.send_frame(self._request_queue.get_nowait())
+            self._request_queue.task_done()""", """            frame = self._request_queue.get_nowait()
+            self.send_frame(frame)
+            self.send_frame(frame)
+            self._request_queue.task_done()""", ('C14.d', 'released once'))
+variant('b-lease-announce-ttl-raw', ['C14'], 'rsocket/lease.py',
+        "        frame.time_to_live = to_milliseconds(self.maximum_lease_time)",
+        "        frame.time_to_live = int(self.maximum_lease_time.total_seconds())", ('C14.e', 'announces'))
+variant('b-to-ms-microseconds-twice', ['C14', 'C16'], 'rsocket/datetime_helpers.py',
+        "    return round(period.total_seconds() * 1000)",
+        "    return round(period.total_seconds() * 1000) + round(period.microseconds / 1000)", ('C16.a', ''))
+variant('t-to-ms-by-division', ['C14', 'C16'], 'rsocket/datetime_helpers.py',
+        "    return round(period.total_seconds() * 1000)",
+        "    return round(period / timedelta(milliseconds=1))", kind='twin')
+variant('t-to-ms-components', ['C14', 'C16'], 'rsocket/datetime_helpers.py',
+        "    return round(period.total_seconds() * 1000)",
+        "    return period.days * 86400000 + period.seconds * 1000 + round(period.microseconds / 1000)", kind='twin')
+
+# ----------------------------------------------------------------------------------------------- C15
+variant('b-echo-keeps-respond', ['C15'], B,
+        """        if frame.flags_respond:
+            frame.flags_respond = False
+            self.send_frame(frame)""", """        if frame.flags_respond:
+            self.send_frame(frame)""", ('C15.a', 'respond=True'))
+variant('b-echo-always', ['C15'], B,
+        """        if frame.flags_respond:
+            frame.flags_respond = False
+            self.send_frame(frame)""", """        frame.flags_respond = False
+        self.send_frame(frame)""", ('C15.a', 'respond=False'))
+variant('b-echo-drops-data', ['C15'], B,
+        """        if frame.flags_respond:
+            frame.flags_respond = False
+            self.send_frame(frame)""", """        if frame.flags_respond:
+            answer = KeepAliveFrame()
+            self.send_frame(answer)""", ('C15.a', 'respond=True'))
+variant('b-keepalive-sleeps-lifetime', ['C15'], 'rsocket/rsocket_client.py',
+        "                await asyncio.sleep(self._keep_alive_period.total_seconds())",
+        "                await asyncio.sleep(self._max_lifetime_period.total_seconds())", ('C15.b', '_keepalive_send_task'))
+variant('b-keepalive-no-respond-flag', ['C15'], 'rsocket/frame_builders.py',
+        "    frame = KeepAliveFrame()\n    frame.flags_respond = True", "    frame = KeepAliveFrame()\n    frame.flags_respond = False",
+        ('C15.b', '_keepalive_send_task'))
+variant('b-timeout-nonstrict', ['C15'], 'rsocket/rsocket_client.py',
+        "if time_since_last_keepalive > self._max_lifetime_period:",
+        "if time_since_last_keepalive >= self._max_lifetime_period:", ('C15.b', '_keepalive_timeout_task'))
+variant('b-timeout-compares-keepalive-period', ['C15'], 'rsocket/rsocket_client.py',
+        "if time_since_last_keepalive > self._max_lifetime_period:",
+        "if time_since_last_keepalive > self._keep_alive_period:", ('C15.b', '_keepalive_timeout_task'))
+variant('b-timestamp-only-on-respond', ['C15'], B,
+        """        self._update_last_keepalive()
+
+        if frame.flags_respond:""", """        if frame.flags_respond:
+            self._update_last_keepalive()""", ('C15.b', 'timestamp'))
+variant('b-timeout-flag-not-cleared', ['C15'], 'rsocket/rsocket_client.py',
+        "                    self._is_server_alive = False\n", "", ('C15.b', '_keepalive_timeout_task'))
+variant('t-echo-new-frame', ['C15'], B,
+        """        if frame.flags_respond:
+            frame.flags_respond = False
+            self.send_frame(frame)""", """        if frame.flags_respond:
+            answer = KeepAliveFrame(data=frame.data)
+            answer.flags_respond = False
+            self.send_frame(answer)""", kind='twin')
+
+# ----------------------------------------------------------------------------------------------- C16
+variant('b-setup-after-transport', ['C16', 'C08'], 'rsocket/rsocket_client.py',
+        """        await super().connect()
+
+        try:
+            await self._connect_new_transport()
+        except RSocketNoAvailableTransport:
+            logger().error('%s: No available transport', self._log_identifier(), exc_info=True)
+            return
+        except Exception as exception:
+            logger().error('%s: Connection error', self._log_identifier(), exc_info=True)
+            await self._on_connection_error(exception)
+            return
+
+        return self""", """        try:
+            await self._connect_new_transport()
+        except RSocketNoAvailableTransport:
+            logger().error('%s: No available transport', self._log_identifier(), exc_info=True)
+            return
+        except Exception as exception:
+            logger().error('%s: Connection error', self._log_identifier(), exc_info=True)
+            await self._on_connection_error(exception)
+            return
+
+        return await super().connect()""", ('C16.b', 'connect'))
+variant('b-setup-periods-swapped', ['C16'], B,
+        """                              self._keep_alive_period,
+                              self._max_lifetime_period,""", """                              self._max_lifetime_period,
+                              self._keep_alive_period,""", ('C16.c', 'keep_alive_milliseconds'))
+variant('b-setup-encodings-swapped', ['C16'], 'rsocket/frame_builders.py',
+        """    setup.data_encoding = data_encoding
+    setup.metadata_encoding = metadata_encoding""", """    setup.data_encoding = metadata_encoding
+    setup.metadata_encoding = data_encoding""", ('C16.c', 'data_encoding'))
+variant('b-setup-lease-flag-dropped', ['C16'], 'rsocket/frame_builders.py',
+        "    setup.flags_lease = honor_lease\n", "", ('C16.c', 'flags_lease'))
+variant('b-setup-payload-metadata-as-data', ['C16'], 'rsocket/frame_builders.py',
+        """        setup.data = payload.data
+        setup.metadata = payload.metadata
+    return setup""", """        setup.data = payload.data
+        setup.metadata = payload.data
+    return setup""", ('C16.c', 'SetupFrame.metadata'))
+variant('b-setup-resume-wrong-code', ['C16'], B,
+        "raise RSocketProtocolError(ErrorCode.UNSUPPORTED_SETUP, data='Resume not supported')",
+        "raise RSocketProtocolError(ErrorCode.REJECTED_SETUP, data='Resume not supported')", ('C16.d', 'resume requested'))
+variant('b-setup-lease-accepted-without-publisher', ['C16'], B,
+        """            if self._lease_publisher is None:
+                raise RSocketProtocolError(ErrorCode.UNSUPPORTED_SETUP, data='Lease not available')
+            else:
+                self._subscribe_to_lease_publisher()""", """            self._subscribe_to_lease_publisher()""",
+        ('C16.d', 'lease requested'))
+variant('b-on-setup-error-swallowed', ['C16'], B,
+        """            logger().error('%s: Setup error', self._log_identifier(), exc_info=True)
+            raise RSocketProtocolError(ErrorCode.REJECTED_SETUP, data=str(exception)) from exception""",
+        """            logger().error('%s: Setup error', self._log_identifier(), exc_info=True)""",
+        ('C16.d', 'on_setup raising'))
+variant('b-on-setup-args-swapped', ['C16'], B,
+        """            await handler.on_setup(frame.data_encoding,
+                                   frame.metadata_encoding,""", """            await handler.on_setup(frame.metadata_encoding,
+                                   frame.data_encoding,""", ('C16.d', 'on_setup receives'))
+variant('b-resume-wrong-code', ['C16'], B,
+        "raise RSocketProtocolError(ErrorCode.REJECTED_RESUME, data='Resume not supported')",
+        "raise RSocketProtocolError(ErrorCode.REJECTED_SETUP, data='Resume not supported')", ('C16.d', 'handle_resume'))
+variant('b-error-reply-on-stream-zero', ['C16', 'C12'], B,
+        """                    logger().error('%s: Protocol error %s', self._log_identifier(), str(exception))
+                    self.send_error(frame.stream_id, exception)""", """                    logger().error('%s: Protocol error %s', self._log_identifier(), str(exception))
+                    self.send_error(CONNECTION_STREAM_ID, exception)""", ('C', 'error reply'))
+
+# ----------------------------------------------------------------------------------------------- C17
+variant('b-connect-no-alive-reset', ['C17'], 'rsocket/rsocket_client.py',
+        "        self._is_closing = False\n        self._is_server_alive = True\n",
+        "        self._is_closing = False\n", ('C17.a', '_is_server_alive'))
+variant('b-connect-alive-reset-late', ['C17'], 'rsocket/rsocket_client.py',
+        """        self._is_server_alive = True
+        self._update_last_keepalive()
+        self._reset_internals()
+        self._start_tasks()
+""", """        self._update_last_keepalive()
+        self._reset_internals()
+        self._start_tasks()
+        self._is_server_alive = True
+""", ('C17.a', '_is_server_alive'))
+variant('b-reconnect-connect-before-close', ['C17'], 'rsocket/rsocket_client.py',
+        """                    await self._close(reconnect=True)
+                    self._next_transport = create_future()
+                    await self.connect()""", """                    self._next_transport = create_future()
+                    await self.connect()
+                    await self._close(reconnect=True)""", ('C17.b', '_reconnect_listener'))
+variant('b-reconnect-stale-transport-future', ['C17'], 'rsocket/rsocket_client.py',
+        """                    await self._close(reconnect=True)
+                    self._next_transport = create_future()
+                    await self.connect()""", """                    await self._close(reconnect=True)
+                    await self.connect()""", ('C17.b', '_reconnect_listener'))
+variant('b-reconnect-close-kills-listener', ['C17'], 'rsocket/rsocket_client.py',
+        "                    await self._close(reconnect=True)", "                    await self._close()",
+        ('C17.b', ''))
+variant('b-connect-tasks-before-reset', ['C17'], 'rsocket/rsocket_client.py',
+        """        self._reset_internals()
+        self._start_tasks()
+""", """        self._start_tasks()
+        self._reset_internals()
+""", ('C17.c', 'fresh'))
+variant('b-reset-keeps-stream-table', ['C17'], B,
+        """        self._responder_lease = NullLease()
+        self._stream_control = StreamControl(self._get_first_stream_id())""", """        self._responder_lease = NullLease()
+        if self._stream_control is None:
+            self._stream_control = StreamControl(self._get_first_stream_id())""", ('C17.c', 'stream table'))
+variant('b-reset-no-drain', ['C17'], B,
+        """        if self._stream_control is not None:
+            # requests registered after the previous connection ended would otherwise be orphaned
+            self.stop_all_streams()
+
+""", "", ('C17.d', '_reset_internals'))
